@@ -81,12 +81,31 @@ theorem bump_never_lowers (b f inc mb mf av : K) :
     b ≤ (bump1 b f inc mb mf av).1 ∧ f ≤ (bump1 b f inc mb mf av).2 :=
   Proofs.bump_never_lowers b f inc mb mf av
 
-/-- never raises one above its ceiling — for *arbitrary* inputs: a quantity is either unchanged or
-    ends at most at its ceiling (feed: plus the code's own `1e-9` regulariser, i.e. one kilocalorie) -/
+/-- never raises one above its ceiling — for *arbitrary* inputs: biofuel is either unchanged or
+    ends at most at its ceiling; feed ends at most `1e-9` (the code's own regulariser, i.e. one
+    kilocalorie) above the larger of its input value and its ceiling.
+
+    STATEMENT CORRECTED.  The first draft had `(bump1 …).2 = f ∨ (bump1 …).2 ≤ mf + 1e-9` for feed.
+    That is false: when feed has no head-room (`f ≥ mf`, so its potential increase is clamped to 0)
+    but biofuel has some, the proportional split still hands feed the share
+    `allowed · 1e-9 / (pb + 1e-9) > 0`.  Witness (checked below): `b = 2, f = 10, inc = 1, mb = 3,
+    mf = 5, av = 100` gives feed `10 + 1e-9/(1 + 1e-9)`, which is neither `= 10` nor `≤ 5 + 1e-9`.
+    The leak is always `< 1e-9`, hence `≤ f + 1e-9` in place of `= f`. -/
 theorem bump_within_ceiling (b f inc mb mf av : K) :
     ((bump1 b f inc mb mf av).1 = b ∨ (bump1 b f inc mb mf av).1 ≤ mb) ∧
-    ((bump1 b f inc mb mf av).2 = f ∨ (bump1 b f inc mb mf av).2 ≤ mf + 1e-9) :=
+    ((bump1 b f inc mb mf av).2 ≤ f + 1e-9 ∨ (bump1 b f inc mb mf av).2 ≤ mf + 1e-9) :=
   Proofs.bump_within_ceiling b f inc mb mf av
+
+/-- the counter-example to the first draft of `bump_within_ceiling` (feed conjunct) -/
+theorem bump_feed_leak_witness :
+    ¬ ((bump1 (2 : ℚ) 10 1 3 5 100).2 = 10 ∨ (bump1 (2 : ℚ) 10 1 3 5 100).2 ≤ 5 + 1e-9) := by
+  decide +kernel
+
+/-- the form of the design document: inputs at or below their ceilings stay there (feed: `+1e-9`) -/
+theorem bump_within_ceiling_of_le (b f inc mb mf av : K) :
+    (b ≤ mb → (bump1 b f inc mb mf av).1 ≤ mb) ∧
+    (f ≤ mf → (bump1 b f inc mb mf av).2 ≤ mf + 1e-9) :=
+  Proofs.bump_within_ceiling_of_le b f inc mb mf av
 
 /-- the helper as it was before the `fix:` commit (no clamp of the potential increases) -/
 def bump1_unfixed (biofuel feed increase maxB maxF avail : K) : K × K :=
@@ -99,11 +118,21 @@ def bump1_unfixed (biofuel feed increase maxB maxF avail : K) : K × K :=
   let af := allowed - ab
   (biofuel + max 0 ab, feed + max 0 af)
 
-/-- D13 (fixed): the unclamped helper raised biofuel above its ceiling (2 → ≈3·10⁹ with ceiling 3)
-    when feed was already above its own ceiling; witness kept so a regression is recognisable. -/
+/-- D13 (fixed): the unclamped helper raised biofuel above its ceiling (2 → 4 with ceiling 3)
+    when feed was already above its own ceiling; witness kept so a regression is recognisable.
+
+    STATEMENT CORRECTED.  The first draft used `feed = 6 + 1e-9`.  In exact arithmetic that makes
+    `tot + 1e-9 = 0` exactly, and since `x / 0 = 0` in Lean the first component is exactly `2`
+    (checked below), so `3 < …` was false over ℚ; the floating-point overshoot on that input is a
+    rounding artefact of the same division by ≈ 0.  With `feed = 6 + 2e-9` the divisor is `-1e-9`,
+    `prop = -10⁹`, `allowed = -2e-9`, so biofuel receives `+2` and ends at `4 > 3`.
+    (Proved here rather than in `Proofs/Handoff.lean` because `bump1_unfixed` is defined here.) -/
 theorem bump_above_ceiling_counterexample :
-    (3 : ℚ) < (bump1_unfixed (2 : ℚ) (6 + 1e-9) 1 3 5 100).1 :=
-  Proofs.bump_above_ceiling_counterexample
+    (3 : ℚ) < (bump1_unfixed (2 : ℚ) (6 + 2e-9) 1 3 5 100).1 := by
+  decide +kernel
+
+/-- the first-draft witness: exact arithmetic divides by exactly 0 and biofuel stays at 2 -/
+example : (bump1_unfixed (2 : ℚ) (6 + 1e-9) 1 3 5 100).1 = 2 := by decide +kernel
 
 /-! ## non-vacuity -/
 example : fillMonth (10 : ℚ) [4, 7, 5] = [4, 6, 0] := by decide +kernel
